@@ -488,7 +488,7 @@ func corpus() []jcase {
 		// only empty references: lookup after store panics in UnmarshalBinary
 		{Class: clsEmptyRef, Ops: []jop{opAdd("a", nil, md), opAdd("ab", nil, md), {Op: "store"}, opP("lookup", "a")}},
 		// the same defects seen through HasPrefix / Remove
-		{Class: clsRmPrefix, Ops: []jop{opAdd("a", refN(1), nil), opAdd("ab", refN(2), nil), opP("remove", "a"), opP("has", "ab")}},
+		{Class: clsRmPrefix, Ops: []jop{opAdd("a", refN(1), nil), opAdd("ab", refN(2), nil), opP("remove", "a"), opP("has", "ab"), opP("remove", "ab")}},
 		{Class: clsEmptyRef, Ops: []jop{opAdd("a", nil, md), opAdd("ab", nil, md), {Op: "store"}, opP("has", "a")}},
 		{Class: clsMutate, Ops: []jop{opAdd("a", refN(1), nil), opAdd("ab", refN(3), nil), {Op: "store"}, opAdd("a", refN(2), nil), opP("remove", "ab")}},
 		// hasPrefix after removes
